@@ -368,8 +368,13 @@ where
     > {
         let targets = self.targets().as_single_targets();
 
-        Ok(self
-            .labels()
+        // `labels()` comes out of a hash set, i.e. in a different order on every call: list the
+        // labels in order of first appearance, so that the returned pairs (and the tie-break of a
+        // `MultiClassModel` collected from them) are reproducible
+        let mut labels = self.labels();
+        labels.sort_by_key(|label| targets.iter().position(|x| x == label));
+
+        Ok(labels
             .into_iter()
             .map(|label| {
                 let targets = targets.iter().map(|x| x == &label).collect::<Array1<_>>();
